@@ -4,7 +4,8 @@
    a buffer flush is a torn tail, which the replayer treats as end of log: C07), a rotation writes
    the buffer out before the memstore is handed to the flusher.  [s_mark] counts the operations
    applied at the last rotation. *)
-From GoSST Require Import Base.Bytes Db.Logical Fs.Crash Fs.CrashFacts.
+From GoSST Require Import Base.Bytes Db.Logical Fs.Crash Fs.CrashFacts Fs.OrderFacts.
+From GoSSTGen Require Import FactsCode.
 From GoSST Require Import RecordIO.Format RecordIO.BufWriter RecordIO.BufWriterFacts Wal.Wal Wal.WalFacts Wal.LogProgram Wal.LogBufferFacts.
 
 Theorem C13_async_crash_prefix :
@@ -65,3 +66,16 @@ Theorem C13_log_killed_at_any_boundary_replays_a_prefix :
   = (concat closed ++ contained c (map snd rs) (lenN file), None).
 Proof. exact log_program_boundary_replay. Qed.
 Print Assumptions C13_log_killed_at_any_boundary_replays_a_prefix.
+
+(* the effect sequences of Fs/Crash.v (log record, then memstore; table complete, then the log file goes; ...) are the
+   order of the calls in the source, and a mutation is logged and applied inside one write-locked section - re-read from
+   the Go syntax trees on every run *)
+Theorem C13_order_facts :
+  put_wal_before_memstore = Some true /\ delete_wal_before_memstore = Some true /\
+  flush_uses_tombstones = true /\ flush_table_before_wal_remove = Some true /\ flush_wal_remove_before_install = Some true /\
+  put_log_append_under_write_lock = Some true /\ delete_log_append_under_write_lock = Some true.
+Proof.
+  pose proof order_facts as H. pose proof log_under_lock_facts as L.
+  repeat split; try apply H; apply L.
+Qed.
+Print Assumptions C13_order_facts.
